@@ -399,16 +399,26 @@ where
         // This is added for `maybe_aliased`; possibly we should integrate
         // the funcs
         .or_not()
-        .then(expr)
+        .then(expr.clone())
         .map(|(alias, mut expr)| {
             expr.alias = alias.or(expr.alias);
             expr
         });
     // Because `expr` accounts for parentheses, and aliased is `x=$expr`, we
-    // need to allow another layer of parentheses here.
-    aliased
-        .clone()
-        .or(aliased.delimited_by(ctrl('('), ctrl(')')))
+    // need to allow another layer of parentheses here: `(x = $expr)`.
+    // The alias is mandatory in this alternative: a parenthesised expression
+    // without an alias is already covered by the first one, and trying it a
+    // second time made parsing exponential in the nesting depth whenever the
+    // innermost expression failed to parse (e.g. unclosed parentheses).
+    let aliased_in_parentheses = ident_part()
+        .then_ignore(ctrl('='))
+        .then(expr)
+        .map(|(alias, mut expr)| {
+            expr.alias = Some(alias);
+            expr
+        })
+        .delimited_by(ctrl('('), ctrl(')'));
+    aliased.or(aliased_in_parentheses)
 }
 
 fn func_call<'a, I, E>(expr: E) -> impl Parser<'a, I, Expr, ParserError<'a>> + Clone + 'a
